@@ -2258,7 +2258,7 @@ class SQLParser:
 
     @classmethod
     def _parse_update_set_column(cls, scanner: TokenScanner, sql_type: SQLType) -> node.ASTUpdateSetColumn:
-        column_name = scanner.pop_as_source()
+        column_name = cls._unify_name(scanner.pop_as_source())
         scanner.match("=")
         column_value = cls._parse_logical_or_level_expression(scanner, sql_type)
         return node.ASTUpdateSetColumn(
